@@ -141,7 +141,9 @@ let run_pair zlb_recv toks impl =
 let run_disp zlb_recv toks impl =
   match toks with
   | rws :: ops ->
-    let e = ref (new_endpoint Z0 Z0 Z0 Z0 (zi (ios rws)) Z0 Z0) in
+    (* the observable of this kind (ns, nr, cwnd, ssthresh, packets) does not always reveal which admissible choice the
+       implementation took for a forged Nr, so ALL model states consistent with what has been observed are kept *)
+    let cands = ref [new_endpoint Z0 Z0 Z0 Z0 (zi (ios rws)) Z0 Z0] in
     let out = Buffer.create 128 in
     let itoks = Array.of_list (tokens impl) in
     List.iteri (fun i op ->
@@ -149,22 +151,22 @@ let run_disp zlb_recv toks impl =
         let render (e', o) =
           let c = e'.e_ch in
           Printf.sprintf "%s/%d,%d,%d,%d" (mark k (show_obs o)) (iz c.c_ns) (iz c.c_nr) (iz c.c_cwnd) (iz c.c_ssth) in
-        let r = match String.split_on_char ':' op with
+        let succ e = match String.split_on_char ':' op with
           | ["i"; kind; ns; nr] ->
             let p = { k_body = (if kind = "z" then None else Some (zi 1)); k_sid = Z0;
                       k_ns = zi (ios ns); k_nr = zi (ios nr) } in
             (* an Nr ahead of our Ns (forged): processing it and ignoring it are both admissible *)
-            let r1 = ep_deliver false !e p Z0 None head_choice in
-            let want = if i < Array.length itoks then itoks.(i) else "" in
-            if render r1 = want then r1
-            else begin
-              let r2 = ep_deliver false !e p Z0 None { r_ig = true; r_zd = None } in
-              if render r2 = want then r2 else r1
-            end
-          | ["s"; b; sid] -> ep_submit !e (zi (ios b)) (zi (ios sid)) Z0 None
-          | _ -> (!e, ONone) in
-        e := fst r;
-        Buffer.add_string out (render r ^ " ")) ops;
+            [ep_deliver false e p Z0 None head_choice; ep_deliver false e p Z0 None { r_ig = true; r_zd = None }]
+          | ["s"; b; sid] -> [ep_submit e (zi (ios b)) (zi (ios sid)) Z0 None]
+          | _ -> [(e, ONone)] in
+        let all = List.concat_map succ !cands in
+        let want = if i < Array.length itoks then itoks.(i) else "" in
+        let ok = List.filter (fun r -> render r = want) all in
+        let keep = if ok <> [] then ok else [List.hd all] in
+        let rec dedupe acc = function [] -> List.rev acc | (e, _) :: r -> if List.mem e acc then dedupe acc r else dedupe (e :: acc) r in
+        let next = dedupe [] keep in
+        cands := (if List.length next > 32 then List.filteri (fun j _ -> j < 32) next else next);
+        Buffer.add_string out (render (List.hd keep) ^ " ")) ops;
     Buffer.add_string out "|";
     Buffer.contents out
   | _ -> "badline"
@@ -222,14 +224,24 @@ let run_runner toks impl =
           log := !log @ [((if q.k_body = None then "z" else "d"), iz q.k_ns, iz q.k_nr, t)]) sent;
       seen := List.length sent in
     let peer_ns = ref 1 and acked = ref 1 in
+    (* latest admissible time of the acknowledgement of each inbound message, for ANY runner obeying runner_next with an
+       idle poll in (0, 500]: when the message arrives (a) the runner sleeps at most until max(a + 500, D) where D is
+       the earliest retransmission deadline pending at that moment; the Tick then sends the ZLB if a + zlbDelay has
+       passed, else comes back at the deadline: max(a + 200, a + 500, D) + 50 *)
+    let bounds = ref [] in
+    let note_bound a =
+      let dls = List.filter_map (fun p -> if iz p.p_att > 0 then Some (iz p.p_dl) else None) !n.n_ep.e_ch.c_q in
+      let d = List.fold_left min max_int dls in
+      let d = if d = max_int then a else d in
+      bounds := !bounds @ [max (a + 500) d + 50] in
     let data ns nr = { k_body = Some (zi 1); k_sid = Z0; k_ns = zi ns; k_nr = zi nr } in
     let msg p rep t = n := node_step !n (NMsg ({ m_rc = head_choice; m_tid_ok = true; m_pkt = p; m_replies = rep; m_removes = false }, zi t)); note t in
     msg (data 0 0) [(zi 1, Z0)] 0;
     let tick_t = ref 200 in
     let do_event (at, k) =
       (match k with
-       | "scccn" | "hello" -> msg (data !peer_ns !acked) [] at; incr peer_ns
-       | "icrq" -> msg (data !peer_ns !acked) [(zi 1, Z0)] at; incr peer_ns
+       | "scccn" | "hello" -> note_bound at; msg (data !peer_ns !acked) [] at; incr peer_ns
+       | "icrq" -> note_bound at; msg (data !peer_ns !acked) [(zi 1, Z0)] at; incr peer_ns
        | "ack" ->
          acked := iz !n.n_ep.e_ch.c_ns;
          msg { k_body = None; k_sid = Z0; k_ns = zi !peer_ns; k_nr = zi !acked } [] at
@@ -256,7 +268,8 @@ let run_runner toks impl =
            [-120, +400] ms; writes predicted close to the end of the watch window may or may not have been seen.
        (2) acknowledgements: WHEN an acknowledgement is sent is the implementation's choice within its bound: for every
            inbound message (arrival a, in-order Ns) the first write carrying Nr > Ns must come no earlier than its
-           arrival and no later than the /repo-HEAD-policy prediction + 400 ms.  How many ZLBs that takes is free. *)
+           arrival and no later than the bound of any runner obeying runner_next with an idle poll <= 500 ms
+           (see [bounds]) + 350 ms of scheduling slack.  How many ZLBs that takes is free. *)
     let data l = List.filter (fun (k, _, _, _) -> k = "d") l in
     let rec data_ok p o = match p, o with
       | [], [] -> true
@@ -271,10 +284,9 @@ let run_runner toks impl =
         | [] -> true
         | (a, _) :: rest ->
           let v = i + 2 in      (* the i-th inbound message has Ns = i+1: acknowledged by Nr >= i+2 *)
-          (match first_ack !log v a with
-           | Some tp when tp <= horizon ->
-             (match first_ack obs v a with Some t -> t <= tp + 400 | None -> false)
-           | _ -> true) && go (i + 1) rest in
+          let ub = (match List.nth_opt !bounds i with Some b -> b | None -> a + 550) + 350 in
+          (if ub <= horizon then (match first_ack obs v a with Some t -> t <= ub | None -> false) else true)
+          && go (i + 1) rest in
       go 0 inbound in
     if obs <> [] && data_ok (List.filter (fun (_, _, _, t) -> t <= horizon) (data !log)) (data obs) && acks_ok then impl
     else "runner " ^ String.concat " " (List.map show !log) ^ " (predicted)"
